@@ -141,9 +141,61 @@ let svc line =
       String.concat " " (List.map show_obs (run_ops fuel e O ops)) ^ " ## " ^ show_refs e ops
   | _ -> failwith "case"
 
+(* ---- factory level ---- *)
+let optz s = if s = "-" then None else Some (zi s)
+let optm s = if s = "-" then None else Some (mapper_of s)
+let ni s = nat_of_int (int_of_string s)
+
+let rec fexpr_of (x : sx) : fexpr =
+  match x with
+  | List [Atom "FL"; Atom id; Atom kind; Atom fd; Atom fdm; Atom fec; Atom rs; Atom d; Atom dm; Atom ec; Atom m] ->
+      let k = (match kind with "d" -> LDirect | "n" -> LFnFactory | "c" -> LFnFactoryCfg | _ -> failwith "lkind") in
+      let fb = { f_d = zi fd; f_dm = zi fdm; f_ec = zi fec; f_rs = rs_of rs;
+                 f_b = { b_d = zi d; b_dm = zi dm; b_ec = zi ec; b_m = mapper_of m } } in
+      FLeafF (ni id, k, fbeh_of (ni id) fb)
+  | List [Atom "FS"; Atom id; Atom d; Atom dm; Atom ec; Atom m] -> FFnService (ni id, beh_of_atoms d dm ec m)
+  | List [Atom "FA"; a; b] -> FAndThen (fexpr_of a, fexpr_of b)
+  | List [Atom "FM"; Atom m; a] -> FMapSvc (SWMap (mapper_of m), fexpr_of a)
+  | List [Atom "FE"; Atom m; a] -> FMapSvc (SWMapErr (mapper_of m), fexpr_of a)
+  | List [Atom "FP"; Atom pre; Atom post; a] -> FMapSvc (SWApplyFn (WPrePost (mapper_of pre, mapper_of post)), fexpr_of a)
+  | List [Atom "FK"; Atom r; a] -> FMapSvc (SWApplyFn (WSkip (res_of r)), fexpr_of a)
+  | List [Atom "FI"; Atom m; a] -> FMapInitErr (mapper_of m, fexpr_of a)
+  | List [Atom "FC"; Atom m; a] -> FMapConfig (mapper_of m, fexpr_of a)
+  | List [Atom "FU"; a] -> FUnitConfig (fexpr_of a)
+  | List [Atom "FG"; s; Atom id; Atom k; Atom fail] ->
+      FApplyCfg (sexpr_of s, { c_id = ni id; c_k = ni k; c_fail = optz fail })
+  | List [Atom "FH"; a; Atom id; Atom k; Atom fail] ->
+      FApplyCfgFactory (fexpr_of a, { c_id = ni id; c_k = ni k; c_fail = optz fail })
+  | List [Atom "FT"; Atom id; Atom k; Atom fail; Atom rc; Atom mie; Atom pre; Atom post; a] ->
+      FApplyTransform ({ t_id = ni id; t_k = ni k; t_fail = optz fail;
+                         t_wf = WPrePost (mapper_of pre, mapper_of post);
+                         t_rc = (rc = "1"); t_mie = optm mie }, fexpr_of a)
+  | List [Atom "FW"; Atom k; a] ->
+      FWrap ((match k with "bx" -> FWBoxed | "rc" -> FWRc | "ar" -> FWArc | _ -> failwith "fwrapk"), fexpr_of a)
+  | _ -> failwith "fexpr"
+
+let show_ipres = function IPending -> "P" | IReady (IOk _) -> "O" | IReady (IErr e) -> "E" ^ sz e | IPanic -> "X"
+
+let fac line =
+  match split2 line with
+  | [fs; cs; os] ->
+      let f = fexpr_of (sx_of_string fs) in
+      let c = if cs = "u" then None else Some (zi cs) in
+      let ops = List.map op_of (words os) in
+      let FObs (r, k, l, rest) = run_fac fuel f c ops in
+      let tr = String.concat " " (("N[" ^ show_events l ^ "]=" ^ show_ipres r ^ "/" ^ sn k) :: List.map show_obs rest) in
+      let (kk, rr) = fsem f c in
+      let refs =
+        "S" ^ show_ipres (IReady rr) ^ "/" ^ si (1 + int_of_nat kk)
+        ^ " L" ^ String.concat "," (List.map (fun (id, c) -> sn id ^ "(" ^ show_cfg c ^ ")") (fleaves f c))
+        ^ (match rr with IOk s -> " " ^ show_refs s ops | IErr _ -> "") in
+      tr ^ " ## " ^ refs
+  | _ -> failwith "case"
+
 let () =
   let f = match Sys.argv.(1) with
     | "svc" -> svc
+    | "fac" -> fac
     | m -> failwith ("unknown mode " ^ m) in
   try while true do
     let line = input_line stdin in
